@@ -60,10 +60,10 @@ def hist(prop, mode, quick_runs, thorough_runs, quick_budget, thorough_budget, r
 
 
 CHECKS = {"C10": c10, "C09": c09, "C11": c11,
-          "C14": hist("C14", "C14", 3000, 150000, 90, 1500, "DESIGN.md §4.1 C14"),
-          "C08": hist("C08", "C08", 3000, 150000, 90, 1500, "DESIGN.md §4.1 C08"),
-          "C06": hist("C06", "C06", 1500, 100000, 110, 1800, "DESIGN.md §4.1 C06"),
-          "C16": hist("C16", "C16", 5000, 120000, 90, 1200, "DESIGN.md §4.1 C16", level="fault_enumeration"),
+          "C14": hist("C14", "C14", 2500, 150000, 90, 1500, "DESIGN.md §4.1 C14"),
+          "C08": hist("C08", "C08", 2500, 150000, 90, 1500, "DESIGN.md §4.1 C08"),
+          "C06": hist("C06", "C06", 1200, 100000, 110, 1800, "DESIGN.md §4.1 C06"),
+          "C16": hist("C16", "C16", 4000, 120000, 90, 1200, "DESIGN.md §4.1 C16", level="fault_enumeration"),
           "C07": None}
 
 
@@ -75,7 +75,7 @@ def c07(a):
     ex, tcov = T.run_thread_check("C07", a.tier, parts, 25 if quick else 400, "DESIGN.md §4.1 C07", ASSUME_THREADS, REAL_VS_STUB_THREADS,
                                   det_sample=100, write_ev=False)
     slim = {k: tcov[k] for k in ("evaluations", "distinct_nontrivial", "verdicts", "strategies", "faults_fired", "violation_classes", "known_findings_hit", "parts") if k in tcov}
-    runs = a.runs or (2000 if quick else 200000)
+    runs = a.runs or (1500 if quick else 200000)
     budget = a.budget or (100 if quick else 1800)
     return H.run_history_check("C07", a.tier, "C07", runs, cat, budget, "DESIGN.md §4.1 C07", ASSUME_HIST, c07=True, extra_cov=slim, extra_exit=ex)
 
